@@ -368,6 +368,26 @@ theorem listener_log_from_closed (ops : Rule → WinOps W) (s : Sys W) (os : Lis
 
 end system
 
+/-! ## 5a. driven only by completed requests: the batch count of an entry is irrelevant -/
+
+/-- **batch_irrelevant.**  `WithBatchCount(n)` does not reach the breakers: an entry is admitted or
+    rejected, and later counted as exactly one completion, whatever its batch count (0 included). -/
+theorem batch_irrelevant {W : Type} (ops : Rule → WinOps W) (s : Sys W) (id : Nat) (res : String) (n m : Nat) :
+    step ops s (.entry id res n) = step ops s (.entry id res m) := rfl
+
+/-- the same for whole histories: erasing the batch counts changes neither the outputs nor the final state -/
+def eraseBatch : Op → Op
+  | .entry id res _ => .entry id res 1
+  | o => o
+
+theorem run_batch_irrelevant {W : Type} (ops : Rule → WinOps W) (s : Sys W) (os : List Op) :
+    run ops s (os.map eraseBatch) = run ops s os := by
+  induction os generalizing s with
+  | nil => rfl
+  | cons o os ih =>
+    have h : step ops s (eraseBatch o) = step ops s o := by cases o <;> rfl
+    simp only [List.map_cons, run, h, ih]
+
 /-! ## 5b. the probe counter -/
 
 section probes
@@ -470,7 +490,7 @@ theorem probe_counter_invariant (ops : Rule → WinOps W) (s : Sys W) (os : List
     apply ih
     cases o with
     | clock t => exact h
-    | entry id res =>
+    | entry id res batch =>
       rcases (entry_pass_iff s id res).2 with hp | ⟨k, hk⟩
       · simp only [step]
         unfold doEntry at hp ⊢
@@ -598,18 +618,18 @@ theorem completeAll_keeps_open (ops : Rule → WinOps W) (res' : String) (now rt
     resource is rejected -/
 theorem step_keeps_open (ops : Rule → WinOps W) (s : Sys W) (o : Op) (k : Nat) (res : String) (D : Nat)
     (h : OpenUntil k res D s.brs) (hnow : s.now < D) :
-    OpenUntil k res D (step ops s o).1.brs ∧ (∀ id, o = .entry id res → ∃ j, (step ops s o).2.dec = some (some j)) := by
+    OpenUntil k res D (step ops s o).1.brs ∧ (∀ id n, o = .entry id res n → ∃ j, (step ops s o).2.dec = some (some j)) := by
   cases o with
-  | clock t => exact ⟨h, fun id hid => by cases hid⟩
-  | entry id res' =>
+  | clock t => exact ⟨h, fun id n hid => by cases hid⟩
+  | entry id res' batch =>
     obtain ⟨b, hb, h1, h2, h3, h4⟩ := h
     simp only [step]
     by_cases hres : res' = res
     · subst hres
       obtain ⟨hblk, hsame⟩ := open_blocks_resource s id res' b hb h2 h3 (by rw [h4]; exact hnow)
       rw [hsame]
-      exact ⟨⟨b, hb, h1, h2, h3, h4⟩, fun _ _ => hblk⟩
-    · refine ⟨?_, fun id' hid => by cases hid; exact absurd rfl hres⟩
+      exact ⟨⟨b, hb, h1, h2, h3, h4⟩, fun _ _ _ => hblk⟩
+    · refine ⟨?_, fun id' n hid => by cases hid; exact absurd rfl hres⟩
       rcases (entry_pass_iff s id res').2 with hp | ⟨j, hj⟩
       · unfold doEntry at hp ⊢
         dsimp only at hp ⊢
@@ -621,7 +641,7 @@ theorem step_keeps_open (ops : Rule → WinOps W) (s : Sys W) (o : Op) (k : Nat)
       · rw [blocked_entry_preserves_state s id res' j hj]
         exact ⟨b, hb, h1, h2, h3, h4⟩
   | exit id err =>
-    refine ⟨?_, fun id' hid => by cases hid⟩
+    refine ⟨?_, fun id' n hid => by cases hid⟩
     simp only [step, doExit]
     cases hf : s.live.find? (fun x => decide (x.id = id)) with
     | none => exact h
@@ -631,7 +651,7 @@ theorem step_now (ops : Rule → WinOps W) (s : Sys W) (o : Op) :
     (step ops s o).1.now = match o with | .clock t => t | _ => s.now := by
   cases o with
   | clock t => rfl
-  | entry id res => simp only [step, doEntry]; split <;> rfl
+  | entry id res batch => simp only [step, doEntry]; split <;> rfl
   | exit id err => simp only [step, doExit]; split <;> rfl
 
 /-- **open_rejects_until (history form).**  Once a breaker of a resource is open with deadline `D`, then
@@ -642,7 +662,7 @@ theorem step_now (ops : Rule → WinOps W) (s : Sys W) (o : Op) :
 theorem open_rejects_until_history (ops : Rule → WinOps W) (s : Sys W) (os : List Op) (k : Nat) (res : String) (D : Nat)
     (h : OpenUntil k res D s.brs) (hnow : s.now < D) (hclk : ∀ t, Op.clock t ∈ os → t < D) :
     OpenUntil k res D (run ops s os).1.brs ∧
-      List.Forall₂ (fun o out => ∀ id, o = Op.entry id res → ∃ j, out.dec = some (some j)) os (run ops s os).2 := by
+      List.Forall₂ (fun o out => ∀ id n, o = Op.entry id res n → ∃ j, out.dec = some (some j)) os (run ops s os).2 := by
   induction os generalizing s with
   | nil => exact ⟨h, List.Forall₂.nil⟩
   | cons o os ih =>
@@ -651,7 +671,7 @@ theorem open_rejects_until_history (ops : Rule → WinOps W) (s : Sys W) (os : L
       rw [step_now]
       cases o with
       | clock t => exact hclk t (List.mem_cons_self ..)
-      | entry id r => exact hnow
+      | entry id r n => exact hnow
       | exit id e => exact hnow
     obtain ⟨i1, i2⟩ := ih (step ops s o).1 h1 hnow' (fun t ht => hclk t (List.mem_cons_of_mem _ ht))
     simp only [run]
